@@ -6,6 +6,11 @@ ALL = ["C%02d" % i for i in range(1, 20)]
 
 # id -> (category, technique, level text, level note, design ref)
 CLAIMED = {
+ "C05": ("exploration",
+         "property-based testing under a virtual clock: generated call-time sequences clustered at interval multiples; invariant oracles for the window bound (running minimum), the staleness bound and frame content",
+         "For refresh rates 1..=255 on a standalone target, a MultiProgress and two alternating MultiProgress members, 30-2000 ordinary requests are issued at generated gaps (0, ns, sub-ms, k intervals +-1 ns, half an interval, ms, seconds, hours). Checked for every sequence: in every window at most 20 + R*T + 1 painted frames (exactly, in integer nanoseconds), a request at least one interval (position updates: + 1 ms) after the last painted frame is painted, one request paints at most one frame, and every painted frame shows the latest state of every bar (nothing lost by skipped draws). A second part checks the position bucket alone (burst 10, 1 ms) on an unlimited target.",
+         "Trusted: virtual clock. Only the stated laws are checked; individual allow/deny decisions are not predicted.",
+         "DESIGN.md 3 C05"),
  "C02": ("exploration",
          "model-based (stateful) property testing: operation histories against a lock-step list model with a tolerant screen matcher; real-thread stress with a per-bar monotonicity oracle",
          "Histories of add/insert/insert_from_back/insert_before/insert_after/remove/tick/inc/set_message/finish*/abandon/drop/mp.println/bar.println/mp.clear/mp.suspend/bar.suspend/set_alignment over up to 8 tagged bars run against the real MultiProgress on the emulated terminal and against an abstract list model (entries with the rendering cached at their last draw attempt, dropped-but-listed bars, retained blocks). At every flush the whole screen must be: printed lines in order, retained blocks (mandatory until a println/clear/suspend/remove intervenes), then each drawn member exactly once in model order. Threads: 2-8 OS threads update their own bar; every recorded frame must show states the bars really had, never older than before, and the last frame the final states.",
